@@ -637,16 +637,13 @@ impl DefaultFunction {
                 let arg1 = args[0].unwrap_byte_string()?;
                 let arg2 = args[1].unwrap_integer()?;
 
-                let index: i128 = arg2.try_into().unwrap();
+                match usize::try_from(arg2).ok().and_then(|index| arg1.get(index)) {
+                    Some(ret) => {
+                        let value = Value::integer((*ret).into());
 
-                if 0 <= index && index < arg1.len() as i128 {
-                    let ret = arg1[index as usize];
-
-                    let value = Value::integer(ret.into());
-
-                    Ok(value)
-                } else {
-                    Err(Error::ByteStringOutOfBounds(arg2.clone(), arg1.to_vec()))
+                        Ok(value)
+                    }
+                    None => Err(Error::ByteStringOutOfBounds(arg2.clone(), arg1.to_vec())),
                 }
             }
             DefaultFunction::EqualsByteString => {
